@@ -367,6 +367,14 @@ class Ex:
     def st_Continue(self, s):
         raise _Continue()
 
+    def st_ImportFrom(self, s):
+        for a in s.names:
+            self.scope.vars[a.asname or a.name] = VGlobal(f"{s.module}.{a.name}")
+
+    def st_Import(self, s):
+        for a in s.names:
+            self.scope.vars[(a.asname or a.name).split(".")[0]] = VGlobal((a.asname or a.name).split(".")[0])
+
     def st_Global(self, s):
         pass
 
@@ -751,6 +759,8 @@ class Ex:
         return items
 
     def store_item(self, cont, idx, v, node):
+        if isinstance(cont, VOpaque) and cont.kind == "pydict":
+            return cont
         if isinstance(cont, VDict):
             k = cont.kty.unwrap(idx)
             return cont.with_(dom=z3.Store(cont.dom, k, True), val=z3.Store(cont.val, k, cont.vty.unwrap(v)))
@@ -1173,6 +1183,8 @@ class Ex:
         if isinstance(v, VInt):
             return v.t != 0
         if isinstance(v, VBits):
+            return v.t != 0
+        if isinstance(v, VReal):
             return v.t != 0
         if isinstance(v, VOpt):
             inner = self.truth(v.val)
@@ -1618,7 +1630,10 @@ class Ex:
     def ex_Dict(self, e):
         if not e.keys:
             return VOpaque("emptydict")
-        raise Unsupported("dict display")
+        # a literal dict of values the verified properties never inspect (e.g. a template context)
+        for v in e.values:
+            self.ev(v)
+        return VOpaque("pydict")
 
 
 def _z(t):
